@@ -13,6 +13,8 @@ type Entry struct {
 	Uid, Gid int
 	MTime    int64             // unix seconds
 	MTimeNs  int64             // nanosecond part if the format stored one (PAX), else 0
+	ATime    int64             // access time stored in the header (GNU header field or PAX record), 0 = none stored
+	CTime    int64             // change time stored in the header, 0 = none stored
 	Size     int64             // header size field
 	Linkname string            // symlink target
 	Body     []byte            // member body (regular files)
